@@ -28,6 +28,7 @@ from harness.wnenv import (fresh_db, use_db, close_db, base_dir, main_loop, exc_
                            JobTimeout)
 
 _files: dict = {}
+_memobjs: dict = {}
 OWN = {l['spec']: l['own_extras'] for l in universe.abstract()['lex']}
 
 
@@ -48,6 +49,7 @@ def _xml(name: str, version='1.3') -> Path:
     d.mkdir(exist_ok=True)
     p = d / f'{name}-{version}.xml'
     if not p.exists():
+        # (a resource may fix its own format version, e.g. Rf10)
         p.write_text(lmfgen.to_xml(universe.resource(name, version)), encoding='utf-8')
     return p
 
@@ -113,8 +115,6 @@ def source_for(kind: str, name: str, route: str) -> Path:
         p = _tar(_package(src, name), f'{name}-pkg', mode)
     elif route == 'tarcoll.xz':
         p = _tar(source_for(kind, name, 'coll'), f'{name}-coll', 'w:xz')
-    elif route in ('v1.1', 'v1.2'):
-        p = _xml(name, route[1:])
     else:
         raise ValueError(route)
     _files[key] = p
@@ -204,8 +204,13 @@ def apply(op, handler=None) -> dict:
     try:
         if op[0] == 'add':
             route = op[2] if len(op) > 2 else 'xml'
-            if route == 'mem':
-                res = lmf.load(_xml(op[1]), progress_handler=None)
+            if route in ('mem', 'memobj'):
+                # 'memobj': one resource object per job, supplied again and again
+                if route == 'memobj' and op[1] in _memobjs:
+                    res = _memobjs[op[1]]
+                else:
+                    res = lmf.load(_xml(op[1]), progress_handler=None)
+                    _memobjs[op[1]] = res
                 before = json.dumps(res, sort_keys=True, default=str)
                 wn.add_lexical_resource(res, progress_handler=handler)
                 extra['inputs_unchanged'] = (
@@ -302,6 +307,7 @@ def handle(job):
         return {'ok': True}
     if mode in ('walk', 'walkfrom'):
         load_snapshot(job.get('snap'))
+        _memobjs.clear()
         out = []
         pre = storeobs.observe(OWN)
         for op in job['ops']:
